@@ -6,7 +6,7 @@ use std::os::unix::ffi::OsStrExt;
 use std::os::unix::fs::FileTypeExt;
 use std::path::{Path, PathBuf};
 
-use crate::model::{Comps, Node, Tree};
+use crate::check::model::{Comps, Node, Tree};
 
 const PREFIX: &str = "/tmp/verif-c14-";
 
@@ -73,7 +73,7 @@ fn rel_path(c: &Comps) -> Vec<u8> {
     if c.is_empty() {
         b".".to_vec()
     } else {
-        crate::model::join(c)
+        crate::check::model::join(c)
     }
 }
 
@@ -95,6 +95,8 @@ pub fn snapshot(root_abs: &[u8]) -> Result<Tree, String> {
             let node = if ft.is_dir() {
                 stack.push(child.clone());
                 Node::Dir
+            } else if ft.is_file() && md.len() == 0 {
+                Node::File(Vec::new())
             } else if ft.is_file() {
                 Node::File(std::fs::read(path_of(&cp)).map_err(|e| format!("read({:?}): {e}", vh::util::escape(&cp)))?)
             } else if ft.is_symlink() {
